@@ -1,4 +1,5 @@
 import DeriveExModel.Gen
+import DeriveExModel.L2
 open DX
 
 def printCase (c : Case) : IO Unit := do
@@ -53,6 +54,37 @@ def main (args : List String) : IO UInt32 := do
       match family fam seed i with
       | some c => printCase c
       | none => IO.eprintln s!"unknown family {fam}"; return 2
+    pure 0
+  | ["l2", fam, seed, from_, count] =>
+    let lawful := fam == "lawRun"
+    if fam != "cmpRun" && fam != "lawRun" then
+      IO.eprintln s!"unknown l2 family {fam}"; return 2
+    let seed := seed.toNat!
+    let from_ := from_.toNat!
+    let count := count.toNat!
+    let out ← IO.getStdout
+    let mut progs : List String := []
+    let mut exps : List String := []
+    let mut mods : List String := []
+    let mut stats : List String := []
+    for i in [from_ : from_ + count] do
+      let c := genCmpRunCase lawful seed i
+      let m := s!"c{i}"
+      let (body, exp) := cmpRunProgram lawful c m
+      progs := body :: progs
+      exps := exps ++ exp
+      mods := m :: mods
+      stats := stats ++ (cmpRunStats c).map (fun t => s!"STAT {m} {t}")
+      stats := stats ++ [s!"SRC {m} {rustItem c}".replace "\n" " "]
+    out.putStrLn "PROGRAM"
+    out.putStr (if lawful then l2PreludeLawful else l2Prelude)
+    for p in progs.reverse do out.putStr p
+    out.putStrLn ("fn main() { " ++ " ".intercalate (mods.reverse.map fun m => m ++ "::run();") ++ " }")
+    out.putStrLn "EXPECT"
+    for e in exps do out.putStrLn e
+    out.putStrLn "STATS"
+    for e in stats do out.putStrLn e
+    out.putStrLn "END"
     pure 0
   | _ =>
     IO.eprintln "usage: drv gen <family> <seed> <from> <count> | drv count <family>"
